@@ -145,7 +145,19 @@ def table_for(name, f, P):
     L = len(traces[0])
     for tr in traces:
         if len(tr) != L or [(e[0], e[1], len(e[2])) for e in tr] != [(e[0], e[1], len(e[2])) for e in traces[0]]:
-            raise GenError(f"{name}: the traced program structure depends on the data size")
+            # search the individual traces for a concrete offender: an intermediate with two data-sized dimensions at that size
+            wit = None
+            for (n_, t_), tr_ in zip(SIZES, traces):
+                for e_ in tr_:
+                    big = [d for d in e_[2] if d in (n_, t_)]
+                    if len(big) >= 2:
+                        wit = dict(entry=name, N=n_, T=t_, primitive=e_[0], shape=list(e_[2]))
+                        break
+                if wit:
+                    break
+            Path("/verif/out").mkdir(parents=True, exist_ok=True)
+            Path("/verif/out/jaxpr_witness.json").write_text(json.dumps(wit))
+            raise GenError(f"{name}: the traced program structure depends on the data size" + (f"; e.g. {wit}" if wit else ""))
     rows = []
     for i in range(L):
         prim, encl, _ = traces[0][i]
